@@ -159,6 +159,11 @@ theorem count_valid_eq (sqrt : Rat → Rat) (xs : List (Option Rat)) :
     GenAgg.count_valid.run sqrt xs = C11.countValid xs := by
   simp only [GenAgg.count_valid.run, C11.countValid, vfoldN_eq]
 
+/-- the deprecated alias `count` -/
+theorem count_eq (sqrt : Rat → Rat) (xs : List (Option Rat)) :
+    GenAgg.count.run sqrt xs = C11.countValid xs := by
+  simp only [GenAgg.count.run, C11.countValid, vfoldN_eq]
+
 theorem vfirst_eq (sqrt : Rat → Rat) (xs : List (Option Rat)) :
     GenAgg.vfirst.run sqrt xs = C11.vfirst xs := rfl
 
